@@ -1,3 +1,4 @@
+import H2.Proofs.ServerSlotsFull
 import H2.Proofs.Closing
 import H2.Proofs.ClosingRace
 /-!
@@ -210,4 +211,68 @@ example : (∀ it ∈ [[Ev.hdrNew 1 false, .dispatch 1, .check], [.offence .rstO
     (let s := run init [.hdrNew 1 false, .dispatch 1, .check, .offence .rstOnIdle 3, .close 1, .check]
      s.closing = true ∧ canClose s = true ∧ s.stopped = true) := by decide
 
+end H2.Props.C10
+
+
+/-! ### what a GOAWAY promises, proved directly on the FULL server model
+
+NEEDS `import H2.Proofs.ServerSlotsFull` among the imports at the top of this file.
+
+Everything below is about `H2.Server.step` itself (`H2/Server/Model.lean`, the serial model the driver runs against
+the real `serverConn`), for EVERY configuration and EVERY event list; `runOuts cfg evs` is the list of everything
+written and dispatched, in the order the model produces it. Proofs: `H2/Proofs/ServerSlotsFull.lean` (invariant:
+every GOAWAY written so far names at least `lastID`; `closing` is set exactly when a GOAWAY has been written; no
+stream is created while `closing`) together with `dispatched_le_lastID` of `H2/Proofs/ServerOnce.lean`.
+(The serial model knows one interleaving of the read loop's own GOAWAYs with the stream loop; the other orders are
+the subject of `goaway_truth_all_interleavings` above.) -/
+namespace H2.Props.C10
+section FullModel
+open H2.Server
+
+/-- **goaway_covers_dispatched** (full model, run level): split the outputs of any run at any GOAWAY frame; the
+last-stream-id it carries is at least every stream id handed to a handler BEFORE it. -/
+theorem Full.goaway_covers_dispatched (cfg : Cfg) (evs : List Event) (pre post : List Out) (l c : Nat) (t : String)
+    (h : runOuts cfg evs = pre ++ .goAway l c t :: post) : ∀ i ∈ dispatchedIds pre, i ≤ l :=
+  H2.Server.goaway_covers_dispatched cfg evs pre post l c t h
+
+/-- **no_dispatch_after_goaway_above_last** (full model, run level): … and no stream id above it is handed to a handler
+AFTER it. -/
+theorem Full.no_dispatch_after_goaway_above_last (cfg : Cfg) (evs : List Event) (pre post : List Out) (l c : Nat) (t : String)
+    (h : runOuts cfg evs = pre ++ .goAway l c t :: post) : ∀ i ∈ dispatchedIds post, i ≤ l :=
+  H2.Server.no_dispatch_after_goaway_above_last cfg evs pre post l c t h
+
+/-- (full model, run level) every GOAWAY of a run names at least the final `lastID` (the highest stream id the server
+ever accepted), which is a 31-bit id: `writeGoAway` truncates nothing. -/
+theorem Full.goaway_ge_lastID (cfg : Cfg) (evs : List Event) :
+    (∀ l ∈ goAwayLasts (runOuts cfg evs), (run cfg evs).1.lastID ≤ l) ∧ (run cfg evs).1.lastID < 2 ^ 31 :=
+  H2.Server.goaway_ge_lastID cfg evs
+
+/-- **closing_is_permanent** (full model, run level): once `closing` is set it is set after any further events. -/
+theorem Full.closing_is_permanent (cfg : Cfg) (evs evs' : List Event) (h : (run cfg evs).1.closing = true) :
+    (run cfg (evs ++ evs')).1.closing = true :=
+  H2.Server.closing_is_permanent cfg evs evs' h
+
+/-- (full model, run level) `closing` is set exactly when a GOAWAY has been written. -/
+theorem Full.closing_iff_goaway (cfg : Cfg) (evs : List Event) :
+    (run cfg evs).1.closing = true ↔ goAwayLasts (runOuts cfg evs) ≠ [] :=
+  H2.Server.closing_iff_goaway cfg evs
+
+/-- (full model, run level) once `closing` is set `lastID` never moves again: no stream is created after a GOAWAY
+(a HEADERS frame for a new stream is answered with RST_STREAM(REFUSED_STREAM)). -/
+theorem Full.no_new_stream_after_goaway (cfg : Cfg) (evs evs' : List Event) (h : (run cfg evs).1.closing = true) :
+    (run cfg (evs ++ evs')).1.lastID = (run cfg evs).1.lastID :=
+  H2.Server.no_new_stream_after_goaway cfg evs evs' h
+
+/-! non-vacuity on the full model (`Ex.gaRun`: requests 1 and 3 dispatched, 3 answered and closed, DATA on the closed
+stream 3 → GOAWAY(last = 3) while the handler of 1 still runs, HEADERS(5) refused, `lastID` stays 3). The same
+operations replayed on the real server give the same lines (REPORT). -/
+example : fm Ex.tag (runOuts {} Ex.gaRun) = [("dispatch", 1), ("dispatch", 3), ("goaway", 3), ("rst", 5)] := by
+  decide +kernel
+example : (run {} Ex.gaRun).1.closing = true ∧ (run {} Ex.gaRun).1.lastID = 3 ∧
+    (run {} (Ex.gaRun.take 4)).1.closing = false := by decide +kernel
+/-- the hypothesis of the two split theorems is satisfiable: the outputs of this run do split at a GOAWAY(last = 3) -/
+example : ∃ pre post c t, runOuts {} Ex.gaRun = pre ++ .goAway 3 c t :: post :=
+  split_at_goAway _ 3 (by decide +kernel)
+
+end FullModel
 end H2.Props.C10
